@@ -361,10 +361,14 @@ def render(prog):
     return tokens_text(program_tokens(prog))
 
 
-LINE_BREAKS = "\n\r\x0b\x0c\x1c\x1d\x1e\x85\u2028\u2029"
+# The only character (besides its own delimiter) that a DSL string cannot hold: the implementation's string pattern is
+# `.`-based and `.` excludes only LF.  CR, VT, FF, FS/GS/RS, NEL, LS and PS are legal string content and are generated on
+# purpose - Python's tokenizer treats several of them as line ends, which is exactly where naive embedding of source text
+# into generated code breaks.
+LINE_BREAKS = "\n"
+ODD_LINE_CHARS = ["\r", "\x0b", "\x0c", "\x1c", "\x1d", "\x1e", "\x85", "\u2028", "\u2029"]
 
 
 def valid_string_content(s, q):
-    """can s be the content of a one-line DSL string delimited by q?  (every character that any
-    convention treats as a line break is excluded: the documentation says strings sit on one line)"""
-    return q not in s and not any(c in s for c in LINE_BREAKS)
+    """can s be the content of a DSL string delimited by q?"""
+    return q not in s and "\n" not in s
